@@ -251,6 +251,28 @@ func c01Run(c *core.Ctx) {
 		}
 		flush()
 	}
+	// (ii-d3) literal interplay (see c07InterplayFirst): same line, different lines of a function body, and
+	// with a comment line that ends in a backslash in between
+	{
+		n := 0
+		for _, f := range c07InterplayFirst {
+			for _, sec := range c07InterplaySecond {
+				for _, src := range []string{
+					"print(" + f + " + " + sec + ");",
+					"let u = " + f + ";\nlet v = " + sec + ";\nprint(u, v);",
+					"function g() {\n  let u = " + f + ";\n  // note \\\n  return " + sec + ";\n}\nprint(g());",
+					"print(" + sec + ", " + f + ", " + sec + ");",
+				} {
+					n++
+					if !c.Mine(int64(n)) || c.Tick() {
+						continue
+					}
+					c.Inc("literal_interplay_programs")
+					check(src, false, 50)
+				}
+			}
+		}
+	}
 	// (ii-e) identifier spellings in every position a name can take
 	for ii, name := range gen.Identifiers() {
 		if !c.Mine(int64(ii)) || c.Tick() {
